@@ -123,6 +123,10 @@ fn gen_scenario(rng: &mut Rng, force_links: bool) -> Scenario {
     fo(&mut nodes, rng, "outside/dir/icon.png".to_string());
     d(&mut nodes, "outside/dir/deep".to_string());
     fo(&mut nodes, rng, "outside/dir/deep/s3.bin".to_string());
+    // a sibling of the root whose name merely *starts with* the root's name (string-prefix confusion)
+    d(&mut nodes, format!("{r}_backup"));
+    fo(&mut nodes, rng, format!("{r}_backup/secret.txt"));
+    fo(&mut nodes, rng, format!("{r}_backup/a.jpg"));
     if rootlink {
         nodes.push(Node { rel: "root".into(), kind: NodeKind::Link("realroot".into()) });
         flags.push("rootlink".into());
@@ -188,6 +192,10 @@ fn gen_scenario(rng: &mut Rng, force_links: bool) -> Scenario {
     }
     if p(rng) {
         link(&mut nodes, &mut flags, format!("{r}/l"), "../outside/dir".into(), "short-dir-out");
+    }
+    if p(rng) {
+        link(&mut nodes, &mut flags, format!("{r}/lb_sib"), format!("../{r}_backup"), "sibling-prefix-dir-out");
+        link(&mut nodes, &mut flags, format!("{r}/lbf_sib.jpg"), format!("../{r}_backup/secret.txt"), "sibling-prefix-file-out");
     }
     if rng.chance(1, 3) {
         link(&mut nodes, &mut flags, "outside/back".into(), "../root".into(), "outside-back");
@@ -296,6 +304,9 @@ fn gen_id(rng: &mut Rng, base_rel: &str) -> (String, &'static str) {
                     format!("{p}{}/secret2.bin", fixed_label_dir()),
                     format!("{p}manifest_store.json"),
                     "l_out/secret2.bin".to_string(),
+                    format!("{p}lb_sib/secret.txt"),
+                    format!("{p}lb_sib/a.jpg"),
+                    format!("{p}lbf_sib.jpg"),
                     "lf_out.jpg".to_string(),
                     "ld_out/icon.png".to_string(),
                     format!("{p}l/secret2.bin"),
